@@ -65,6 +65,9 @@ def generate(rng, tier, index):
     if "shape_map_raw" not in target and rng.random() < 0.35:
         sizes = [len(gen.instances_of(triples, c, tp)) for c in gen.classes_of(triples, tp)]
         options["instances_cap"] = rng.randint(1, max(sizes) + 1)
+        if rng.random() < 0.3:
+            # the deprecated remote limit given as well: instances_cap is the one that counts
+            options["limit_remote_instances"] = rng.randint(1, max(1, options["instances_cap"]))
     if rng.random() < 0.15:
         options["detect_minimal_iri"] = True
     if rng.random() < 0.12:
